@@ -47,6 +47,18 @@ func vfloatfmt(args []string) error {
 			add(math.Float64frombits(uint64(e)<<52 | m))
 		}
 	}
+	// large integers (2^50 .. 2^72, up to the 1e21 switch): the exactness / divisibility branches of the digit generator
+	for e := 1023 + 50; e <= 1023+72; e++ {
+		for k := 0; k < *n/8; k++ {
+			add(math.Float64frombits(uint64(e)<<52 | r.Uint64()&0xfffffffffffff))
+		}
+	}
+	// small magnitudes around the 1e-6 switch and the negative-exponent scalings
+	for e := 1023 - 30; e <= 1023-10; e++ {
+		for k := 0; k < *n/40; k++ {
+			add(math.Float64frombits(uint64(e)<<52 | r.Uint64()&0xfffffffffffff))
+		}
+	}
 	for e := -323; e <= 308; e++ { // powers of ten and both neighbours
 		f, _ := strconv.ParseFloat(fmt.Sprintf("1e%d", e), 64)
 		add(f)
